@@ -409,6 +409,8 @@ class Tr:
                 lines = [f"{ind2}let {name} := {t}"]
                 return lines + self.store(e[1], name, ty, env2, ind2, lambda env3, ind3: k(name, ty, env3, ind3))
             return self.ev(e[2], env, ind, after_rhs)
+        if kind in ("preinc", "predec"):
+            raise Refuse(f"{self.fn}: `++`/`--` used as a value (e.g. `return ++it`: an iterator operator) is outside the translated subset")
         raise Refuse(f"{self.fn}: expression `{kind}` is outside the translated subset")
 
     def deref(self, e, env, ind, k):
